@@ -247,7 +247,7 @@ pub fn run(eng: &mut Engine) {
         PartCfg::new(
             "removal-index",
             "one small object (<= 16 symbols, any scheme, max_transfer_count 1-3, carousel none/delay/interval, allow-immediate-stop unset/false/true, both publish modes) is removed after exactly j packets for EVERY j from 0 to the number of packets the undisturbed session emits (+2), with and without a publication right after; every run is judged by the full lifecycle oracle; non-trivial = the removal fell inside a transfer; distinct by (case, j)",
-            tier.pick(1_500, 40_000),
+            tier.pick(1_500, 12_000),
         ),
         removal_strategy,
         move |c| run_removal(c, &known2),
